@@ -82,6 +82,12 @@ def apply(fn, *args):
     r = fn(*args)
     return (NAME, X, r)
 
+def worker(fn, *args):
+    r0 = fn(*args)
+    def late():
+        return (NAME, X)
+    return (NAME, r0, late())
+
 def boom(n):
     global X
     X += n
@@ -222,7 +228,7 @@ class ProgGen:
                 place(f"import {pyname} as z_{m}")
                 env["mods"][f"z_{m}"] = m
             elif k < 0.75:
-                names = r.sample(["get", "bump", "apply", "safe", "boom", "lam", "make", "C", "deco"], r.randint(1, 4))
+                names = r.sample(["get", "bump", "apply", "safe", "worker", "boom", "lam", "make", "C", "deco"], r.randint(1, 4))
                 place(f"from {pyname} import " + ", ".join(f"{n} as {n}_{m}" for n in names))
                 for n in names:
                     env["fns"][f"{n}_{m}"] = (m, n)
@@ -311,7 +317,7 @@ class ProgGen:
                     self.stats["raising_cross_calls"] += 1
                 return ref, [str(r.randint(1, 9))], True
             return ref, [str(r.randint(1, 9))], False
-        ho, owner = r.choice(self.fn_refs(fid, ["apply", "safe"]))
+        ho, owner = r.choice(self.fn_refs(fid, ["apply", "safe", "worker"]))
         if owner != fid:
             self.stats["cross_context_calls"] += 1
         is_safe = ho.split(".")[-1].split("_")[0] == "safe"
